@@ -5,7 +5,7 @@ cd /verif; miss=0
 for d in seeded/*/; do
   id=$(basename $d); p=${id%%-*}
   [ -f $d/patch.diff ] || continue
-  git -C /repo apply $d/patch.diff || { echo "$id: patch does not apply"; miss=1; continue; }
+  git -C /repo apply /verif/${d}patch.diff || { echo "$id: patch does not apply"; miss=1; continue; }
   out=$(./check $p quick 2>&1); rc=$?
   git -C /repo checkout -- .
   cls=$(echo "$out" | grep -m1 "  class:" | sed 's/ *(run_index.*//')
